@@ -288,7 +288,10 @@ pub fn parse_file_internal(context: &ParseContext) -> Result<(), Error> {
 #[derive(Clone, Copy, PartialEq, Eq, Debug)]
 pub enum NextItem {
     NewLine,
+    /// Skip to next branch of current conditional block (.elif, .else) or to its end (.endif)
     EndIf,
+    /// Skip all other branches of current conditional block, to its end (.endif)
+    EndIfAll,
     EndMacro,
     EndFile,
 }
@@ -325,7 +328,21 @@ fn skip<'a>(
                 while let Some((num, line)) = iter.next() {
                     if let Ok(item) = document::line(line) {
                         if let Document::DirectiveLine(_, directive, _) = item {
-                            if other == NextItem::EndIf {
+                            if other == NextItem::EndIfAll {
+                                if directive == Directive::If
+                                    || directive == Directive::IfDef
+                                    || directive == Directive::IfNDef
+                                {
+                                    scoup_count += 1;
+                                } else if directive == Directive::Endif {
+                                    if scoup_count == 0 {
+                                        ret = iter.next();
+                                        break;
+                                    } else {
+                                        scoup_count -= 1;
+                                    }
+                                }
+                            } else if other == NextItem::EndIf {
                                 if directive == Directive::If
                                     || directive == Directive::IfDef
                                     || directive == Directive::IfNDef
@@ -371,6 +388,8 @@ pub fn parse_iter<'a>(
     let mut next_item = NextItem::NewLine;
 
     loop {
+        // .elif is a condition only after branch which isn't assembled
+        let after_skip = next_item == NextItem::EndIf;
         if let Some((line_num, line)) = skip(iter, context, next_item) {
             next_item = NextItem::NewLine; // clear conditional flag to typical state
             let line_num = line_num + 1;
@@ -403,7 +422,12 @@ pub fn parse_iter<'a>(
                                 ));
                             }
                         }
-                        let item = d.parse(&d_op_args, &context, CodePoint { line_num, num: 2 })?;
+                        let item = if d == Directive::ElIf && !after_skip {
+                            // branch of this conditional block is already assembled, other branches must be skipped
+                            NextItem::EndIfAll
+                        } else {
+                            d.parse(&d_op_args, &context, CodePoint { line_num, num: 2 })?
+                        };
                         next_item = item;
                     }
                     Document::EmptyLine => {}
